@@ -106,6 +106,16 @@ theorem stream_handler_error_is_final (cfg : Joining.SCfg) (m : Joining.Sim) (e 
   rw [ended_is_final cfg fuel _ (by rw [h1]; rfl)]
   exact h2
 
+/-- **a handler error during cursor resolution ends the replay**: the failing call is the last event and the source
+    reports the handler's error -/
+theorem resolver_handler_error_ends_replay (files : List Resolver.ForkFile) (c : HubBurst.Cur) (pt : Bool) (canon : List Blk)
+    (k : Nat) (h : k < (Resolver.run files c pt canon).1.length) :
+    Resolver.runFailing files c pt canon (some k) = ((Resolver.run files c pt canon).1.take (k + 1), some .handler) ∧
+    (Resolver.runFailing files c pt canon (some k)).1.length = k + 1 := by
+  unfold Resolver.runFailing
+  simp only [h, if_true, List.length_take, true_and]
+  omega
+
 /-- **a handler error inside the fork-aware handler is returned at once** (C01) -/
 theorem forkable_handler_error (cfg : Forkable.Config) (s : Forkable.FState) (b : Blk) (k : Nat)
     (h : k < (Forkable.processBlock cfg s b none).2.1.length) :
